@@ -69,9 +69,10 @@ func runC13(p *Program, r *Report) {
 	r.Check(rngOK, "R-C13-1", fnName(f)+"/parser.range<-input.Range", p.Pos(pr.Pos()), "range argument is input.Range", "ParseGetObjectRange is not applied to the request's Range")
 	// section reader
 	n := 0
-	for _, c := range callsTo(f, "io.NewSectionReader") {
+	for _, sc := range sectionCallsIn(f) {
 		n++
-		a := callArgs(c)
+		c := sc.call
+		a := []ssa.Value{nil, sc.off, sc.length}
 		ok1, d1 := onlyParserOrConst(a[1], 0)
 		ok2, d2 := onlyParserOrConst(a[2], 1)
 		r.Check(ok1 && fromResult(a[1], 0), "R-C13-1", fnName(f)+"/section#"+itoa(n)+".offset", p.Pos(c.Pos()), "offset <- parser result #0", "the body window's offset does not come from ParseGetObjectRange: "+d1)
@@ -175,7 +176,30 @@ func c13Controller(p *Program, r *Report) {
 		r.Viol("R-C13-2", key, p.Pos(h.Pos()), "cannot find where 206 is chosen (anchor drift)")
 		return
 	}
-	reachM := func(cut []edge, b *ssa.BasicBlock) bool { return reachable(h, nil, cut)[b] }
+	reachM := func(cut []edge, b *ssa.BasicBlock) bool {
+		if !reachable(h, nil, cut)[b] {
+			return false
+		}
+		if b == merge {
+			return true
+		}
+		// a site is the edge site -> merge: it is passable when one of its copies is not cut
+		for i, su := range b.Succs {
+			if su != merge {
+				continue
+			}
+			isCut := false
+			for _, e := range cut {
+				if e.from == b && e.succ == i {
+					isCut = true
+				}
+			}
+			if !isCut {
+				return true
+			}
+		}
+		return false
+	}
 	fromBackend, fromRequest := false, ""
 	ncond := 0
 	for _, ce := range condEdgesOf(h) {
@@ -220,6 +244,16 @@ func c13Controller(p *Program, r *Report) {
 			}
 		}
 		r.Check(okB, "R-C13-4", fnName(h)+"/stream.body", p.Pos(c.Pos()), "streams res.Body", "the streamed body is not the backend result's Body")
+		if v, isC := constInt(a[2]); isC && v == -1 && !okL {
+			// "until EOF": only where the backend result carries no ContentLength
+			var cut []edge
+			for _, ce := range condEdgesOf(h) {
+				if ce.isEqNeq && ce.atoms["field:ContentLength"] && ce.atoms["const:nil"] {
+					cut = append(cut, ce.holds)
+				}
+			}
+			okL = len(cut) > 0 && !reachable(h, nil, cut)[c.Block()]
+		}
 		r.Check(okL, "R-C13-4", fnName(h)+"/stream.length", p.Pos(c.Pos()), "length from res.ContentLength", "the streamed length is not the backend result's ContentLength")
 	}
 	// Content-Range header value from res.ContentRange
